@@ -962,6 +962,8 @@ def run(ctx):
     unbound = run_sequences(ctx, 160 * scale, c14_oracle, "seq")
     blob_cases(ctx, 80 * scale)
     n = real_key_cases(ctx)
+    import c15          # (lazy: c15 imports this module)
+    ctx.notes.append("gssapi-with-mic on a real loopback server transport: %s" % c15.gss_mic_loopback(ctx))
     ctx.notes.append("real-key signature cases: %d; GssapiWithMicAuthHandler table entries are unbound functions: "
                      "%d dispatches needed an explicit self (the real Transport.run would raise TypeError there and "
                      "stop, emitting nothing)" % (n, unbound))
